@@ -13,6 +13,7 @@ import (
 	"verif/internal/hx"
 	"verif/internal/kf"
 	"verif/internal/memfs"
+	"verif/internal/run"
 	"verif/internal/vals"
 )
 
@@ -64,6 +65,7 @@ type CaseA struct {
 	Addr  string            `json:"addr"`            // key | name | tag | tagopt | field
 	Pos   string            `json:"pos"`             // interp | expr | vif | attr | get
 	Decoy bool              `json:"decoy,omitempty"` // absent sources exist/are called, but define another key
+	Name  string            `json:"name,omitempty"`  // map data only: the key's name when it is not "kv" (names of default template functions)
 	Ext   string            `json:"ext,omitempty"`   // names of the data files: "" a.yml+b.yml | yaml+yml | yml+yaml | yaml+yaml | samestem (c.yaml+c.yml)
 }
 
@@ -78,6 +80,9 @@ func (c CaseA) has(src string) bool {
 
 // key is the variable name under test.
 func (c CaseA) key() string {
+	if c.Name != "" && c.Addr == "key" {
+		return c.Name
+	}
 	switch c.Addr {
 	case "name":
 		return "Kv"
@@ -108,6 +113,12 @@ func dataNames(ext string) (da, db string, err error) {
 }
 
 var exts = []string{"yaml+yml", "yml+yaml", "yaml+yaml", "samestem"}
+
+// funcNames are variable names that are also default template functions (funcmap.go). A variable
+// shadows a function of the same name wherever it is read, also when its value is null.
+var funcNames = []string{"title", "default", "escape", "json", "upper", "len", "type", "file"}
+
+func isNull(v vals.V) bool { return v.K == "nil" }
 
 // winner is the reference model: the first present source in the documented order.
 func (c CaseA) winner() (string, vals.V, bool) {
@@ -195,7 +206,7 @@ func isZero(v vals.V) bool {
 		return v.S == "0"
 	case "bool":
 		return v.S != "true"
-	case "nil[]string", "nil[]any", "nilmap":
+	case "nil[]string", "nil[]any", "nilmap", "nil":
 		return true
 	}
 	return false
@@ -363,6 +374,8 @@ func yamlOf(key string, v vals.V) string {
 		return key + ": {" + strings.Join(parts, ", ") + "}\n"
 	case v.L != nil:
 		return key + ": [" + strings.Join(strsOf(v), ", ") + "]\n"
+	case isNull(v):
+		return key + ": " + v.S + "\n" // S holds the spelling of null: "", "~" or "null"
 	}
 	return key + ": " + v.S + "\n"
 }
@@ -441,6 +454,24 @@ func (c CaseA) body() string {
 		case "attr":
 			fmt.Fprintf(&b, `<p data-m="v1" :data-x="%s">x</p>`, p[1])
 		}
+	case any && isNull(wv):
+		// the chosen value is null: plain reads print nothing recognisable, expression reads must
+		// see the same null (falsy, equal to nil, equal to no other source's value)
+		switch c.Pos {
+		case "interp":
+			fmt.Fprintf(&b, `<p data-m="v">{{ %s }}</p>`, k)
+		case "expr":
+			fmt.Fprintf(&b, `<p data-m="n">{{ %s == nil ? 'null' : 'set' }}</p>`, k)
+		case "vif":
+			for _, s := range srcs {
+				if !isZero(c.Vals[s]) {
+					fmt.Fprintf(&b, `<b data-m="is-%s" v-if="%s == %s">x</b>`, s, k, lit(c.Vals[s]))
+				}
+			}
+			fmt.Fprintf(&b, `<b data-m="truthy" v-if="%s">x</b>`, k)
+		case "attr":
+			fmt.Fprintf(&b, `<p data-m="v" :data-x="%s">x</p>`, k)
+		}
 	default:
 		switch c.Pos {
 		case "interp":
@@ -462,7 +493,9 @@ func (c CaseA) body() string {
 				fmt.Fprintf(&b, `<b data-m="is-true" v-if="%s == true">x</b><b data-m="is-false" v-if="%s == false">x</b>`, k, k)
 			} else {
 				for _, s := range srcs {
-					fmt.Fprintf(&b, `<b data-m="is-%s" v-if="%s == %s">x</b>`, s, k, lit(c.Vals[s]))
+					if !isNull(c.Vals[s]) {
+						fmt.Fprintf(&b, `<b data-m="is-%s" v-if="%s == %s">x</b>`, s, k, lit(c.Vals[s]))
+					}
 				}
 			}
 			fmt.Fprintf(&b, `<b data-m="truthy" v-if="%s">x</b><b data-m="falsy" v-if="!%s">x</b>`, k, k)
@@ -504,6 +537,12 @@ func checkA(c CaseA) error {
 		v, ok := c.Vals[s]
 		if !ok {
 			return fmt.Errorf("malformed case: source %q has no value", s)
+		}
+		if isNull(v) {
+			if c.Fill != "map" || c.VType != "string" {
+				return fmt.Errorf("malformed case: null values are only used with map data and vtype string")
+			}
+			continue
 		}
 		if isZero(v) {
 			if s != "fill" && s != "assign" && c.VType != "bool" {
@@ -576,8 +615,8 @@ func checkA(c CaseA) error {
 		if !any {
 			return nil // undefined everywhere: the result of Get is not specified beyond "nothing leaks"
 		}
-		if c.composite() && isZero(wv) {
-			return nil // string form of a nil list / map: unspecified; nothing of a loser was seen
+		if (c.composite() && isZero(wv)) || isNull(wv) {
+			return nil // string form of a nil list / map / null: unspecified; nothing of a loser was seen
 		}
 		if c.composite() {
 			// the string form of a list / map is not specified: the winner's items must be mentioned
@@ -657,6 +696,20 @@ func checkA(c CaseA) error {
 		return nil
 	}
 
+	if isNull(wv) {
+		// nothing of a lower source was seen (scan above); in expression positions the variable is
+		// the same null: no comparison holds, it is falsy (docs/syntax.md: nil is falsey), == nil
+		if len(hits) > 0 {
+			return fmt.Errorf("render (vif): %s: %v held although the chosen value is null", desc, hits)
+		}
+		if _, sawT := byID["truthy"]; sawT {
+			return fmt.Errorf("render (vif): %s: v-if=%q rendered although the chosen value is null ({{ %s }} and Get show null)", desc, k, k)
+		}
+		if c.Pos == "expr" {
+			return wantText("n", "null")
+		}
+		return nil
+	}
 	if c.composite() && isZero(wv) {
 		// the chosen value is a nil list / map: nothing of a lower source was seen (scan above) and
 		// no comparison with a lower source's element holds
@@ -781,6 +834,31 @@ func enumA(f func(c CaseA, excluded string) bool) {
 				have = append(have, s)
 			}
 		}
+		// variables named like template functions (map data), with string values and with a null
+		// given by the winning source; and null winners for the ordinary key as well
+		for _, name := range append([]string{""}, funcNames...) {
+			for _, null := range []bool{false, true} {
+				if (name == "" && !null) || (null && len(have) == 0) {
+					continue
+				}
+				vs := map[string]vals.V{}
+				for i, s := range have {
+					vs[s] = canon("string", s, 0)
+					if null && i == 0 {
+						vs[s] = vals.V{K: "nil", S: []string{"", "~", "null"}[mask%3]}
+					}
+				}
+				for _, pos := range positions {
+					if len(have) == 0 && pos == "expr" {
+						continue
+					}
+					c := CaseA{Have: have, Vals: vs, VType: "string", Ctor: "newfs", Fill: "map", Addr: "key", Pos: pos, Name: name}
+					if !f(c, excludedA(known, c)) {
+						return
+					}
+				}
+			}
+		}
 		for _, vt := range vtypes {
 			// bool has only two values: the winner gets one, every loser the other, in both polarities
 			variants := 1
@@ -806,6 +884,11 @@ func enumA(f func(c CaseA, excluded string) bool) {
 					for _, pos := range positions {
 						for _, decoy := range []bool{false, true} {
 							for _, ctor := range ctors {
+								if !run.Thorough() && decoy != (ctor == "withfs") {
+									// quick tier: the two side dimensions vary together (missing
+									// sources + NewFS, decoy sources + New(WithFS)); thorough: full cross
+									continue
+								}
 								if len(have) == 0 && pos == "expr" {
 									continue // arithmetic on an undefined variable: unspecified, nothing to assert
 								}
@@ -889,6 +972,15 @@ func classifyA(c CaseA) (bool, []string) {
 	}
 	if c.Decoy {
 		cls = append(cls, "decoy")
+	}
+	if c.Name != "" {
+		cls = append(cls, "key-named-like-a-template-function")
+	}
+	if _, wv, ok := c.winner(); ok && isNull(wv) {
+		cls = append(cls, "winner-gives-null", "null-from="+w)
+		if c.Name != "" {
+			cls = append(cls, "null-winner-for-a-function-named-key")
+		}
 	}
 	if c.Ext != "" {
 		cls = append(cls, "data-files="+c.Ext)
